@@ -282,7 +282,25 @@ def private_helpers(crate, adt_suffix, exclude=()):
     """non-public, non-recursive inherent methods / associated fns of the ADT that are not among the
     role functions `exclude` (bodies): extracted helpers are inlined into the analysis of their callers"""
     ex = {b.key for b in exclude if b is not None}
-    return [b for b in methods_of(crate, adt_suffix) if b.vis != "pub" and b.key not in ex and not self_recursive(b)]
+    own = [b for b in methods_of(crate, adt_suffix) if b.vis != "pub" and b.key not in ex and not self_recursive(b)]
+    # ... and the functions of the crate's private value-carrier types (`Node::left()`, `Halves::new`, `BitPos::mask()`)
+    seen = {b.key for b in own}
+    return own + [b for b in private_type_helpers(crate, exclude) if b.key not in seen]
+
+
+def private_type_helpers(crate, exclude=()):
+    """non-recursive inherent functions of the crate's PRIVATE types (`Halves::new`, `Node::left`, `Link::pick`): value
+    carriers introduced by a refactor; they are inlined into the analysis of their callers like private methods"""
+    ex = {b.key for b in exclude if b is not None}
+    priv = {a["key"] for a in crate.adts if not a.get("pub")}
+    out = []
+    for b in crate.bodies:
+        if b.is_closure or b.kind != "AssocFn" or b.key in ex or self_recursive(b):
+            continue
+        imp = crate.impl_of(b)
+        if imp is not None and not imp.get("of_trait") and imp.get("self_adt") in priv:
+            out.append(b)
+    return out
 
 
 def analyser(helpers, **kw):
@@ -682,7 +700,7 @@ def structural_hash(crate, adt):
     return True, "hand-written, every field in order"
 
 
-def is_readonly_check(crate, b):
+def is_readonly_check(crate, b, cell_reads=False):
     """a function that cannot influence its caller's values: returns (), takes nothing by &mut, and touches no static,
     thread-local, interior mutability, IO or unsafe code (a `debug_check(&self)` made of assertions); it can only panic"""
     if b is None or b.is_closure:
@@ -691,4 +709,8 @@ def is_readonly_check(crate, b):
         return False
     if any(str(b.locals[i]["ty"]).startswith("&mut") for i in range(1, b.arg_count + 1)):
         return False
-    return not impure_constructs(b)
+    bad = impure_constructs(b)
+    if cell_reads:
+        # reading a Cell it was handed (`cell.get()`) observes state without changing it
+        bad = [x for x in bad if not (x.startswith("call std::cell::Cell::<") and x.endswith(">::get"))]
+    return not bad
